@@ -143,10 +143,10 @@ PROPS = {
     },
     "C14": {
         "level": "model_checking",
-        "kani": ["c13_math"],
+        "kani": ["c13_math", "c14_slices"],
         "verus": [],
         "level_text": "Element-wise definitions of batch_inversion (zeros anywhere), power series, add_in_place and mul_acc on the real generic code at F_17, all element values, lengths 3-6.",
-        "level_note": "BOUNDED: F_17, lengths <= 6 (never across the 1024-element parallel batch boundary; the concurrent feature is not applicable: Kani has no threads). group/flatten/transpose slice helpers not yet under contract.",
+        "level_note": "BOUNDED: F_17, lengths <= 6 (never across the 1024-element parallel batch boundary; the concurrent feature is not applicable: Kani has no threads). Slice helpers on 12-byte payloads, group sizes 2-4.",
     },
     "C12": {
         "level": "model_checking",
